@@ -10,11 +10,13 @@ const PREDICATE_B: &str = "where_predicate = __Deserr_E: deserr::MergeWithError<
 /// How the attributes of one item are written: in one `#[deserr(..)]`, one per line, or in a
 /// seeded grouping, and in a seeded order. The derive must honour all of them alike.
 fn layout(attrs: &[String], salt: &str, indent: &str) -> String {
-    if attrs.is_empty() {
-        return String::new();
-    }
     let h = crate::rng::hash_str(salt);
     let mut rng = crate::rng::Rng::new(h);
+    if attrs.is_empty() {
+        // an item without any deserr attribute may still carry other tools' attributes
+        let mut hrng = crate::rng::Rng::new(crate::rng::mix(h, 0xD0C, 0));
+        return if hrng.chance(1, 5) { format!("{indent}#[doc(hidden)]\n") } else { String::new() };
+    }
     let mut a: Vec<String> = attrs.to_vec();
     if rng.chance(1, 2) {
         rng.shuffle(&mut a);
@@ -24,6 +26,12 @@ fn layout(attrs: &[String], salt: &str, indent: &str) -> String {
     let noise = rng.chance(1, 3);
     if rng.chance(1, 4) {
         let _ = writeln!(out, "{indent}#[rustfmt::skip]");
+    }
+    {
+        let mut hrng = crate::rng::Rng::new(crate::rng::mix(h, 0xD0C, 0));
+        if hrng.chance(1, 5) {
+            let _ = writeln!(out, "{indent}#[doc(hidden)]");
+        }
     }
     match rng.below(4) {
         0 | 1 => {
@@ -55,6 +63,42 @@ fn layout(attrs: &[String], salt: &str, indent: &str) -> String {
     out
 }
 
+/// A Rust string literal for `s` in a seeded spelling: as `{:?}` prints it, with every non-ASCII
+/// character (and the first ASCII letter) written as an escape sequence, or as a raw string. All
+/// spellings denote the same string, which is what `rename` / `tag` are documented to take.
+fn lit(s: &str, salt: &str) -> String {
+    let mut rng = crate::rng::Rng::new(crate::rng::hash_str(&format!("lit:{salt}:{s}")));
+    match rng.below(5) {
+        0 => {
+            let mut out = String::from("\"");
+            let mut first_letter = true;
+            for c in s.chars() {
+                if !c.is_ascii() {
+                    let _ = write!(out, "\\u{{{:x}}}", c as u32);
+                } else if c.is_ascii_alphabetic() && first_letter {
+                    first_letter = false;
+                    let _ = write!(out, "\\x{:02x}", c as u32);
+                } else {
+                    out.extend(c.escape_default());
+                }
+            }
+            out.push('"');
+            out
+        }
+        1 if !s.contains('\r') => {
+            let mut n = 0;
+            while s.contains(&format!("\"{}", "#".repeat(n))) {
+                n += 1;
+            }
+            if n == 0 && rng.chance(1, 2) {
+                n = 1;
+            }
+            format!("r{h}\"{s}\"{h}", h = "#".repeat(n))
+        }
+        _ => format!("{s:?}"),
+    }
+}
+
 fn rename_all_attr(r: Option<RenameAll>) -> Option<String> {
     r.map(|r| match r {
         RenameAll::Camel => "rename_all = camelCase".to_string(),
@@ -77,6 +121,7 @@ fn deny_attr(d: &Deny) -> Option<String> {
         Deny::No => None,
         Deny::Default => Some("deny_unknown_fields".to_string()),
         Deny::Custom(n) => Some(format!("deny_unknown_fields = unknown_cb::<{n}, __Deserr_E>")),
+        Deny::CustomUser(n) => Some(format!("deny_unknown_fields = unknown_user_cb::<{n}>")),
     }
 }
 
@@ -91,7 +136,7 @@ fn emit_fields(cat: &Catalogue, fields: &[FieldDef], indent: &str, owner: &str, 
     for f in fields {
         let mut attrs: Vec<String> = vec![];
         if let Some(r) = &f.rename {
-            attrs.push(format!("rename = {r:?}"));
+            attrs.push(format!("rename = {}", lit(r, &format!("{owner}.{}", f.ident))));
         }
         if f.skip {
             attrs.push("skip".to_string());
@@ -102,7 +147,11 @@ fn emit_fields(cat: &Catalogue, fields: &[FieldDef], indent: &str, owner: &str, 
             Dflt::Expr(t) => attrs.push(format!("default = Probe::<{}>::dflt({t})", probe_id(&f.ty))),
         }
         if let Some(n) = f.missing_fn {
-            attrs.push(format!("missing_field_error = missing_cb::<{n}, __Deserr_E>"));
+            if f.missing_user {
+                attrs.push(format!("missing_field_error = missing_user_cb::<{n}>"));
+            } else {
+                attrs.push(format!("missing_field_error = missing_cb::<{n}, __Deserr_E>"));
+            }
         }
         match &f.conv {
             Conv::No => {}
@@ -184,7 +233,7 @@ pub fn emit(cat: &Catalogue, program_seed: u64, n_gen: usize, uniform: bool) -> 
                 let _ = writeln!(out, "    }}\n}}\n");
             }
             TypeKind::Tagged { tag, rename_all, deny, validate, variants } => {
-                let mut attrs = vec![format!("tag = {tag:?}"), PREDICATE_USER.to_string(), PREDICATE_B.to_string()];
+                let mut attrs = vec![format!("tag = {}", lit(tag, name)), PREDICATE_USER.to_string(), PREDICATE_B.to_string()];
                 attrs.extend(rename_all_attr(*rename_all));
                 attrs.extend(deny_attr(deny));
                 attrs.extend(validate_attr(validate, name));
@@ -231,7 +280,7 @@ fn emit_enum(cat: &Catalogue, name: &str, attrs: &[String], variants: &[VariantD
     for v in variants {
         let mut va: Vec<String> = vec![];
         if let Some(r) = &v.rename {
-            va.push(format!("rename = {r:?}"));
+            va.push(format!("rename = {}", lit(r, &format!("{name}::{}", v.ident))));
         }
         va.extend(rename_all_attr(v.rename_all));
         let _ = write!(out, "{}", layout(&va, &format!("{name}::{}", v.ident), "    "));
